@@ -655,9 +655,9 @@ fn work_dir() -> String {
 }
 
 pub fn exec_ops(w: &mut SessWorker, light: bool, fork_run: bool, src: &mut dyn OpSource, res: &mut ExecResult) -> (Vec<Op>, Vec<usize>) {
-    // Fork runs test that a copied session is independent of its original, so nothing in them
-    // may be a copy of a context that other runs also copy: their base is built from scratch.
-    let base = match if fork_run { let _ = w.base(light); w.fresh_base(light) } else { w.base(light) } {
+    // Fork runs test that a copied session is independent of its original: the pair under test
+    // and each of its two references come from three independently built base contexts.
+    let base = match if fork_run { let _ = w.base(light); w.scratch_base(0, light) } else { w.base(light) } {
         Ok(b) => b,
         Err(e) => {
             res.harness_error = Some(e);
@@ -751,7 +751,7 @@ pub fn exec_ops(w: &mut SessWorker, light: bool, fork_run: bool, src: &mut dyn O
                     // fresh session fed line by line. If it panics there too, the panic is a
                     // property of the line, not of the execution mode.
                     let mut fresh = if forked {
-                        match w.fresh_base(light) {
+                        match w.scratch_base(1, light) {
                             Ok(f) => f,
                             Err(e) => {
                                 res.harness_error = Some(e);
@@ -1120,9 +1120,10 @@ pub fn exec_ops(w: &mut SessWorker, light: bool, fork_run: bool, src: &mut dyn O
             }
             for (name, live, suffix) in [("parent", &p_final, &p_suffix), ("clone", &c_final, &c_suffix)] {
                 let Some(live) = live else { continue };
-                // the reference never had a sibling and is not a clone of anything: it is built
-                // from scratch and fed the prefix and this side's own lines
-                let mut scratch = match w.fresh_base(light) {
+                // the reference never had a sibling and shares nothing with the pair under test:
+                // it comes from another independently built base and is fed the prefix and this
+                // side's own lines
+                let mut scratch = match w.scratch_base(if name == "parent" { 1 } else { 2 }, light) {
                     Ok(f) => f,
                     Err(e) => {
                         res.harness_error = Some(e);
